@@ -45,6 +45,8 @@ def rand_scenario(rng, drv, k):
     sc = {"driver": drv, "callers": callers, "outcomes": outcomes, "first_seq": rng.randrange(1, 256),
           "release_plan": [rng.choice([0, 1, 1, 1, 2, -1]) for _ in range(rng.randrange(0, 40))],
           "latencies": [rng.choice([0.0, 0.0, 0.0005, 0.002]) for _ in range(rng.randrange(0, 30))], "tag": "rand:%d" % k}
+    if drv in ("luba", "sci"):
+        sc["coalesce"] = rng.choice([0, 0, 1, 2])      # how the serial port hands over frames that arrived together
     return sc
 
 
